@@ -240,4 +240,64 @@ def headerValue (tr : Transport) (raw : List (List Char × List Char)) : Option 
   | [] => none
   | vs => some (joinVals tr.sep vs)
 
+/-! ### wave 5 — call order inside a request: the token check precedes every state-touching call
+
+Probed per rule × method × instance id with `sys.monitoring`: the sequence of function entries of one request
+restricted to (a) the `token_required` wrapper (`check`) and (b) every other function defined in
+`bptkServer.py`, in the external-state adapters and in the `bptk` class (`touch name`: view bodies, helpers such
+as `_ensure_instance_exists` with its restore side effect, `InstanceManager` methods, `before_request`
+hooks).  `accepted` is the trace with the right token (the PROGRAM of the view), `refused` the traces with no
+header and with a wrong token. -/
+
+inductive CallEv where
+  | check
+  | touch (f : String)
+deriving DecidableEq, Repr
+
+/-- the first thing a request does, if it does anything, is the token check -/
+def orderOK : List CallEv → Bool
+  | [] => true
+  | .check :: _ => true
+  | .touch _ :: _ => false
+
+def isCheck : CallEv → Bool
+  | .check => true
+  | .touch _ => false
+
+/-- running a program: `eff f` is what the call of `f` does to the state, `ok` the outcome of the token
+comparison of THIS request; a failing check ends the request with 401 -/
+def runProg {σ : Type} (eff : String → σ → σ) (ok : Bool) : List CallEv → σ → σ × Nat
+  | [], s => (s, 200)
+  | .check :: rest, s => if ok then runProg eff ok rest s else (s, 401)
+  | .touch f :: rest, s => runProg eff ok rest (eff f s)
+
+/-- what a refused request executes of a program: everything up to and including the first check -/
+def refusedTrace : List CallEv → List CallEv
+  | [] => []
+  | .check :: _ => [.check]
+  | .touch f :: rest => .touch f :: refusedTrace rest
+
+structure CallRow where
+  rule : String
+  method : String
+  inst : String
+  accepted : List CallEv
+  refusedAbsent : List CallEv
+  refusedWrong : List CallEv
+deriving Repr
+
+def rowOK (r : CallRow) : Bool :=
+  publicRules.contains r.rule || (orderOK r.accepted && r.refusedAbsent.all isCheck && r.refusedWrong.all isCheck)
+
+def callsOK (rows : List CallRow) : Bool := rows.all rowOK
+
+/-- the refused traces are what the model predicts from the accepted program -/
+def rowConsistent (r : CallRow) : Bool :=
+  r.refusedAbsent == refusedTrace r.accepted && r.refusedWrong == refusedTrace r.accepted
+
+def badRowAt (rows : List CallRow) (i : Nat) : Bool :=
+  match rows[i]? with
+  | some r => !publicRules.contains r.rule && !orderOK r.accepted
+  | none => false
+
 end Bptk.C15
